@@ -141,6 +141,15 @@ def cases(tier, seed, shard, nshards):
             yield {"k": "fam", "name": f, "n": n}
     for seq in tokens.sequences(ALPHA, _L(tier), shard, nshards):
         yield {"k": "tok", "text": "".join(seq)}
+    from ..gen import dictionary
+    shapes = ["@comment{%s}", "@Comment{%s x}", "@comment{%s", "@a{k, t = {%s}}", "@a{k, %s = {v}}", "%s\n@a{k}", "@string{s = {%s}}\n@a{k, t = s}",
+              "@preamble{%s}", "@a{%s, t = 1}", "@%s{k, t = 1}", "@a{k, month = %s, author = {%s}}"]
+    j = 0
+    for lit in dictionary.literals():
+        for sh in shapes:
+            j += 1
+            if j % nshards == shard:
+                yield {"k": "dict", "text": sh.replace("%s", lit)}
     r = rng_for(seed, shard, "c01")
     n = tier_pick(tier, 40000, 1000000) // nshards
     for i in range(n):
